@@ -187,6 +187,7 @@ struct ArchiveDamage : Family {
 			else op = mkline("op", "extractall");
 			// failing allocation inside this call, on the long-lived object only: whatever the outcome, the object must stay usable
 			if (r.chance(1, 5)) op.set("allocfail", 1 + r.below(12));
+			else if (r.chance(1, 6)) op.set("openfail", 1 + r.below(3)); // an open for reading fails inside this call (descriptor limit)
 			p.ops.push_back(op);
 		}
 		return p;
@@ -359,9 +360,14 @@ struct ArchiveDamage : Family {
 						uint64_t allocFail = op.u("allocfail", 0);
 						uint64_t injectedBefore = g_alloc.injectedFailures;
 						g_alloc.failCountdown = allocFail;
+						uint64_t openFiredBefore = g_fault.firedOpenFail;
+						g_fault.openFailCountdown = op.u("openfail", 0);
 						CallResult ra = doCall(plan, *A, Avol, op, t, count, "a" + std::to_string(oi));
 						g_alloc.failCountdown = 0;
-						bool oomInjected = g_alloc.injectedFailures != injectedBefore;
+						g_fault.openFailCountdown = 0;
+						bool openFailed = g_fault.firedOpenFail != openFiredBefore;
+						if (openFailed) ctx.count("fault.open_failed_inside_archive_call");
+						bool oomInjected = g_alloc.injectedFailures != injectedBefore || (openFailed && ra.out != OkOut);
 						++calls;
 						checkBudget(ctx, op.verb + " on the long-lived archive object");
 						if (ra.out == ErrOther) ctx.fail("C05.ordinary-error", op.str() + " failed with something that is not a std::exception");
